@@ -22,21 +22,24 @@ package hash
 //@   modifies nothing
 
 // Get: none for an empty ring; otherwise a member of the bucket of the first key >= hash(v) (wrapping to the first key)
+// (chSi, chHv: the search index and the hash of the last Get, as ghost state so that callers can read the contract)
+//@ ghost var chSi int
+//@ ghost var chHv uint64
 //@ func (h *ConsistentHash) Get
 //@   property C15
 //@   flag nolock purefn:hashFunc callbacks_noheap nopanic:hashFunc
 //@   results node, ok
 //@   requires hInv(h)
-//@   ghost at entry: si = 0
-//@   ghost at entry: hv = 0
-//@   ghost at after Search#0: si = ret
-//@   ghost at after hashFunc#0: hv = ret
+//@   ghost at entry: chSi = 0
+//@   ghost at entry: chHv = 0
+//@   ghost at after Search#0: chSi = ret
+//@   ghost at after hashFunc#0: chHv = ret
 //@   ensures  implies(card(h.ring) == 0, !ok && node == nil)
 //@   ensures  implies(card(h.ring) > 0, ok)
-//@   ensures  implies(ok, 0 <= si && si <= len(h.keys) && has(h.ring[h.keys[si%len(h.keys)]], node))
-//@   ensures  implies(ok && si < len(h.keys), h.keys[si] >= hv && forall(j.(int), implies(0 <= j && j < si, h.keys[j] < hv)))
-//@   ensures  implies(ok && si == len(h.keys), forall(j.(int), implies(0 <= j && j < len(h.keys), h.keys[j] < hv)))
-//@   modifies calls(h.hashFunc)
+//@   ensures  implies(ok, 0 <= chSi && chSi <= len(h.keys) && has(h.ring[h.keys[chSi%len(h.keys)]], node))
+//@   ensures  implies(ok && chSi < len(h.keys), h.keys[chSi] >= chHv && forall(j.(int), implies(0 <= j && j < chSi, h.keys[j] < chHv)))
+//@   ensures  implies(ok && chSi == len(h.keys), forall(j.(int), implies(0 <= j && j < len(h.keys), h.keys[j] < chHv)))
+//@   modifies calls(h.hashFunc), chSi, chHv
 
 // weights: replicas = h.replicas * weight / 100 (clamped to h.replicas by AddWithReplicas)
 // every weighted / plain add is exactly one AddWithReplicas (which first removes the node's previous virtual nodes), whatever
